@@ -174,8 +174,14 @@ def segStr (evs : List Ev) (cons : Nat) (pub closed : Bool) : String :=
 def roleStr : Role → String
   | .none => "none" | .tcp => "tcp" | .udp => "udp" | .mc => "mc"
 
+/-- segments per input; the summary is that of the state BEFORE the last input (the harness always
+    ends a script with its implicit hang-up and pulses media just before it) -/
 def runRtsp (s : Sess) : List Input → List String × String
   | [] => ([], s!"ch={qStr s.tr.channels} role={roleStr s.role} paused=0")
+  | [i] =>
+    let (s', evs) := stepInput genCfg s i
+    ([segStr evs (if s'.role != .none then 1 else 0) s'.pusher s'.closed],
+     s!"ch={qStr s.tr.channels} role={roleStr s.role} paused=0")
   | i :: is =>
     let (s', evs) := stepInput genCfg s i
     let (segs, fin) := runRtsp s' is
@@ -183,6 +189,10 @@ def runRtsp (s : Sess) : List Input → List String × String
 
 def runWsp (s : WSess) : List Input → List String × String
   | [] => ([], s!"ch={qStr s.tr.channels} role={if s.attached then "tcp" else "none"} paused={boolStr s.paused}")
+  | [i] =>
+    let (s', evs) := wstepInput genWspGate s i
+    ([segStr evs (if s'.attached then 1 else 0) false s'.closed],
+     s!"ch={qStr s.tr.channels} role={if s.attached then "tcp" else "none"} paused={boolStr s.paused}")
   | i :: is =>
     let (s', evs) := wstepInput genWspGate s i
     let (segs, fin) := runWsp s' is
